@@ -93,12 +93,17 @@ func (o *vectorOperator) initOutputs(ctx context.Context) error {
 	var highCardSide []labels.Labels
 	var errChan = make(chan error, 1)
 	go func() {
+		defer close(errChan)
+		defer func() {
+			if e := recover(); e != nil {
+				errChan <- model.PanicToError(e)
+			}
+		}()
 		var err error
 		highCardSide, err = o.lhs.Series(ctx)
 		if err != nil {
 			errChan <- err
 		}
-		close(errChan)
 	}()
 
 	lowCardSide, err := o.rhs.Series(ctx)
